@@ -431,6 +431,44 @@ func (g *histGen) line(kind int) string {
 	return b.String()
 }
 
+// ccGridLine: a pair of grid-shift references naming the same grids (the one grid-shift case that works: the
+// datum step is the identity) called while other transformers whose DESTINATION is one of the two are running.
+// datumTransform needs the WGS84 constants in place of a grid-shift destination's a/es: if it puts them into
+// the shared datum, even for the duration of a call, the pair's compare_datums sees them (fix 70faba2).
+func (g *histGen) ccGridLine() string {
+	r := g.r
+	gridA := []string{"+proj=longlat +ellps=bessel +nadgrids=foo", "+proj=longlat +ellps=clrk66 +nadgrids=bar"}[r.Intn(2)]
+	gridB := strings.Replace(gridA, "+proj=longlat", "+proj=utm +zone=33", 1)
+	if r.Chance(0.3) {
+		gridB = gridA + " +pm=paris"
+	}
+	others := byClass("wgs", "d3", "d7", "named", "wgsl")
+	o1, o2 := catalogue[others[r.Intn(len(others))]], catalogue[others[r.Intn(len(others))]]
+	defs := []string{gridA, gridB, o1.def, o2.def}
+	cat := []srDef{{gridA, 10, 50, "grid"}, {gridB, 15, 50, "grid"}, o1, o2}
+	pairs := [][2]int{{0, 1}, {1, 0}, {2, 0}, {2, 1}, {3, 1}, {3, 0}, {2, 3}}
+	nC := r.Range(6, 30)
+	var b strings.Builder
+	fmt.Fprintf(&b, "cc %d", len(defs))
+	for _, d := range defs {
+		b.WriteString(" " + enc(d))
+	}
+	fmt.Fprintf(&b, " | %d", len(pairs))
+	for _, p := range pairs {
+		fmt.Fprintf(&b, " %d %d", p[0], p[1])
+	}
+	fmt.Fprintf(&b, " | %d", nC)
+	for i := 0; i < nC; i++ {
+		t := r.Intn(len(pairs))
+		if i < 2 {
+			t = i // the working pair, both directions, is always called
+		}
+		x, y := g.input(defs[pairs[t][0]], cat[pairs[t][0]])
+		fmt.Fprintf(&b, " %d %s %s", t, vproto.F2H(x), vproto.F2H(y))
+	}
+	return b.String()
+}
+
 func gen(seed uint64, tier string) {
 	out := bufio.NewWriter(os.Stdout)
 	defer out.Flush()
@@ -481,5 +519,19 @@ func gen(seed uint64, tier string) {
 		if i%5 == 0 {
 			emit(hg.optLine())
 		}
+	}
+	// true concurrency (cc.go): the strata of the histories again, 8 goroutines per line
+	nCC := 160
+	if tier == "thorough" {
+		nCC = 2000
+	}
+	for i := 0; i < nCC; i++ {
+		if i%4 == 3 {
+			emit(hg.ccGridLine())
+			continue
+		}
+		l := hg.line(i % 10)
+		secs := strings.Split(l, " | ")
+		emit("cc" + strings.TrimPrefix(strings.Join(secs[:3], " | "), "h"))
 	}
 }
